@@ -1,4 +1,4 @@
-import OrdModel.Proofs.IndexMiscReplayBurned
+import OrdModel.Proofs.IndexMiscReplayBalances
 /-
 C37 — index events replay to the indexed state.
 
@@ -9,12 +9,16 @@ output balances; `project cfg st` reads the same out of the index tables.  Full 
   theorem c37_replay (h : run cfg chain = .ok (st, evs)) (valid chain) :
       ∀ component, (replay cfg evs chain).component ≈ (project cfg st).component     (as maps)
 
-Proved here, for every chain and every configuration, with no validity hypothesis: the
-rune-existence component (`c37_rune_entries`, as lists) and the mint-count component
-(`c37_mints`, as maps), plus the unconditional per-block step lemma `c37_rune_block_step`.
-The remaining components (burned totals, balances, locations, charms, ids, unbound counter, no
-leftover events) are checked on every run by the oracle line `ix.oracle.replay` on the
-implementation's own events and tables; see notes/C37.md for what their proofs need.
+Proved here, for every configuration:
+* with no validity hypothesis: rune existence (`c37_rune_entries`, as lists), mint counts
+  (`c37_mints`, as maps), the per-block step `c37_rune_block_step`, the per-transaction balance step
+  `c37_balances_tx_step` (fresh txid only), and `c37_utxo_pass_emits_no_rune_event`;
+* for chains of consecutive blocks (heights 0,1,2,…, ≤ 2^32 transactions each) without a repeated
+  txid (`RuneLift.SupplyChainOK`): burned totals (`c37_burned`, absent = 0), output balances
+  (`c37_balances`, as lists) and that no balance event is left unclaimed (`c37_no_leftover`).
+The inscription components (locations, charms, ids, unbound counter) are checked on every run by
+the oracle line `ix.oracle.replay` on the implementation's own events and tables; see
+notes/C37.md for what their proofs need.
 -/
 namespace Ord.Index
 
@@ -56,6 +60,35 @@ theorem c37_burned (cfg : Cfg) (chain : List Block) (st : State) (evs : List Eve
   show (AL.get (evs.foldl (applyEvent chain) {}).burned id).getD 0 = (AL.get (st.runeEntries.map _) id).getD 0
   rw [AL.get_map_val (fun e : RuneEntry => e.burned) st.runeEntries id]
   exact this
+
+/-- Output balances: replaying the rune events transaction by transaction (erase the rows of the
+transaction's inputs, then apply its `RuneTransferred` events) reproduces the balance table —
+the same rows in the same order, not just the same map — after every successfully indexed chain of
+consecutive blocks in which no txid occurs twice. -/
+theorem c37_balances (cfg : Cfg) (chain : List Block) (st : State) (evs : List Event)
+    (h : run cfg chain = .ok (st, evs)) (hc : RuneLift.SupplyChainOK chain) :
+    (replay cfg evs chain).balances = (project cfg st).balances := by
+  show (replayBalances cfg evs chain).1 = st.balances
+  rw [run_bal cfg chain st evs h hc]
+
+/-- … and every rune event that is not a `RuneBurned` is claimed by the transaction of the chain
+whose txid it carries (no event is left over). -/
+theorem c37_no_leftover (cfg : Cfg) (chain : List Block) (st : State) (evs : List Event)
+    (h : run cfg chain = .ok (st, evs)) (hc : RuneLift.SupplyChainOK chain) :
+    (replay cfg evs chain).leftover = (project cfg st).leftover := by
+  show (replayBalances cfg evs chain).2.length = 0
+  rw [run_bal cfg chain st evs h hc]
+  rfl
+
+/-- One transaction of the rune pass (no chain hypothesis beyond a fresh txid): its balance events
+all carry its txid, and `replayBalTx` turns the table before into the table after. -/
+theorem c37_balances_tx_step (st : State) (blk : Block) (i : Nat) (tx : Tx) (bb : Balances) (st' : State)
+    (bb' : Balances) (evs : List Event) (hx : indexRunesTx st blk i tx bb = .ok (st', bb', evs))
+    (hfresh : ∀ v, AL.get st.balances ⟨tx.txid, v⟩ = none) :
+    (∀ e ∈ evs.filter isBalEvent, ofTx tx.txid e = true) ∧
+    ∀ tail, (∀ e ∈ tail, ofTx tx.txid e = false) →
+      replayBalTx (st.balances, evs.filter isBalEvent ++ tail) tx = (st'.balances, tail) :=
+  indexRunesTx_bal st blk i tx bb st' bb' evs hx hfresh
 
 /-- The inscription / UTXO pass of a block is invisible on the rune side: it leaves the rune
 entries and balances alone and emits only inscription events (events without a txid field). -/
@@ -101,10 +134,18 @@ example : (match run exCfg exChain with
     | .ok (st, evs) => ((replay exCfg evs exChain).burned, (project exCfg st).burned, st.balances.length)
     | _ => ([], [], 1)) = ([(⟨0, 1⟩, 10)], [(⟨0, 1⟩, 10)], 0) := by decide
 
+/-- after the first two blocks the 10 units sit on output 1 of transaction 22 -/
+example : (match run exCfg (exChain.take 2) with
+    | .ok (st, evs) => ((replay exCfg evs (exChain.take 2)).balances, st.balances)
+    | _ => ([], [])) = ([(⟨22, 1⟩, [(⟨0, 1⟩, 10)])], [(⟨22, 1⟩, [(⟨0, 1⟩, 10)])]) := by decide
+
 #print axioms c37_rune_block_step
 #print axioms c37_rune_entries
 #print axioms c37_mints
 #print axioms c37_burned
+#print axioms c37_balances
+#print axioms c37_no_leftover
+#print axioms c37_balances_tx_step
 #print axioms c37_utxo_pass_emits_no_rune_event
 
 end Ord.Index
